@@ -150,7 +150,7 @@ def correspondence(ctx, model_ok=True):
     rng = ctx.rng.fork("c09")
     failures = []
     broken = []
-    n_gen = 9600 if ctx.thorough else 600
+    n_gen = 9600 if ctx.thorough else 5000
     gen = progs.generated(rng, PROFILES, n_gen)
     scripts = [p for p in progs.corpus_scripts() if "Fiber" in p[1]]
     allp = [(n, s, m) for n, s, m, _ in gen] + scripts
